@@ -31,6 +31,12 @@ CHECKS = {
         note="Trusted: pyvc, z3 (parser + QF_BV), specs/evm_word.py. Assumed: the regexes of refine do not touch other query text (checked on the generated queries only); Path.to_smt2 is proved for n <= 3 opaque conditions (bounded in n); that self.conditions holds every accumulated constraint (Path.append/extend_path) is not under contract.",
         technique="postconditions of the real functions: ground evaluation over the finite symbol domain + SMT validity for all operands; AST symbolic execution (pyvc)",
     ),
+    "C13": dict(
+        text="Deductive + ground: every entry of the assert-cheatcode table (read from the AST) has key = keccak4(signature), is a Forge-std assert form, and the table is complete (76 forms); every *_sig constant equals keccak4 of the signature in its comment; for every table signature the real mk_assert_handler -> vm_assert_* -> mk_cond chain is symbolically executed and its condition proved equivalent, for all 256-bit operands, to the relation the signature names (unsigned/signed, bit equality, length-sensitive equality for bytes/string/arrays with symbolic contents), with the message read from the right slot; the assert and assume arms of hevm_cheat_code.handle are executed as fragments for all 3x3 solver answers (failing state exactly when not proved impossible, carrying exactly Not(cond); assume appends exactly word != 0).",
+        ref="DESIGN.md 4/C13",
+        note="Trusted: pyvc, z3, eth_hash keccak, the grammar of Forge-std assert forms written in the sidecar. Assumed: calldata extractors replaced by their contracts (ByteVec slicing not proved); bytes/array lengths from a small set (contents symbolic); Exec.check abstracted by its answer; is_global_fail_set / nested-call propagation not under contract.",
+        technique="ground table obligations + AST symbolic execution (pyvc) with callee contracts, z3",
+    ),
 }
 
 NOT_APPLICABLE = {}
